@@ -6,6 +6,7 @@ toolchain go1.23.5
 
 require (
 	github.com/CosmWasm/wasmd v0.32.0
+	github.com/CosmWasm/wasmvm v1.2.6
 	github.com/cosmos/cosmos-sdk v0.45.17
 	github.com/gogo/protobuf v1.3.3
 	github.com/jackalLabs/canine-chain/v4 v4.0.0
@@ -22,7 +23,6 @@ require (
 	filippo.io/edwards25519 v1.0.0-rc.1 // indirect
 	github.com/99designs/keyring v1.2.1 // indirect
 	github.com/ChainSafe/go-schnorrkel v0.0.0-20200405005733-88cbf1b4c40d // indirect
-	github.com/CosmWasm/wasmvm v1.2.6 // indirect
 	github.com/Workiva/go-datastructures v1.0.53 // indirect
 	github.com/armon/go-metrics v0.4.1 // indirect
 	github.com/beorn7/perks v1.0.1 // indirect
